@@ -24,9 +24,16 @@ Record case := { c_ty : ty; c_in : list (list chunk); c_legal_other : bool; c_do
 Definition elems_eqb : list bytes -> list bytes -> bool := list_eqb bytes_eqb.
 Definition is_nil {A} (l : list A) : bool := match l with [] => true | _ => false end.
 
-(* foreach over jsonl needs JSON documents as elements *)
+(* foreach over jsonl needs JSON documents as elements; over paths the variable
+   is of type `path`, whose expansion normalises the value as a file name
+   (path.Clean, a trailing slash for existing directories): the printed value is
+   compared only for elements without `/` and `.` *)
 Definition each_applies (c : case) : bool :=
-  match c_ty c with TJsonl => c_docs c | _ => true end.
+  match c_ty c with
+  | TJsonl => c_docs c
+  | TPaths => negb (existsb (fun x => has_byte 47 x || has_byte 46 x) (map expand (c_in c)))
+  | _ => true
+  end.
 
 (* correspondence: where the model covers the type, it predicts the callback
    sequence, both error flags and the foreach runs *)
@@ -51,11 +58,17 @@ Definition no_space_endsb (x : bytes) : bool :=
 Definition no_trailing_cr (x : bytes) : bool := match frev x with 13 :: _ => false | _ => true end.
 Definition valid_utf8 (x : bytes) : bool := bytes_eqb (sanitize x) x.
 
+Definition no_colon (x : bytes) : bool := negb (has_byte 58 x).
+
+(* the property's per-type alphabets: no newlines; no leading / trailing white
+   space for str / jsonl; no tabs (horizontal or vertical) for generic; UTF-8 text
+   for json and yaml; no separator for paths *)
 Definition legal_elem (t : ty) (x : bytes) : bool :=
   match t with
   | TStr | TJsonl => no_newline x && short_enough x && no_space_endsb x
   | TGeneric => no_newline x && short_enough x && tab_free x && no_trailing_cr x
-  | TJson => valid_utf8 x && no_newline x && no_trailing_cr x
+  | TJson | TYaml => valid_utf8 x && no_newline x && no_trailing_cr x
+  | TPaths => no_newline x && no_colon x && no_trailing_cr x
   | TOther _ => true
   end.
 Definition legal (c : case) : bool :=
@@ -84,14 +97,24 @@ Definition spec_ok (c : case) : bool :=
    1 — foreach does not run its body for an empty-string element
        (forEachInnerLoop returns early when len(b) == 0); everything else about
        the case is as the property says.
-   2 — the xml ArrayWriter's output cannot be read back by the xml ReadArray. *)
+   2 — the xml ArrayWriter's output cannot be read back by the xml ReadArray.
+   3 — generic: a form feed inside an element is written as a line break by the
+       tabwriter, so the element comes back as two.
+   4 — paths: the empty list is written as the empty string, which reads back
+       as one empty element. *)
 Definition classify (c : case) : N :=
   let xs := map expand (c_in c) in
   let ob := c_obs c in
   match c_ty c with
   | TOther 4 => 2
   | _ =>
-    if existsb is_nil xs && negb (o_rerr ob) && elems_eqb (map expand (o_read ob)) xs && o_typed ob &&
+    if (match c_ty c with TGeneric => true | _ => false end) && existsb (has_byte 12) xs &&
+       elems_eqb (map expand (o_read ob)) (concat (map (fun x => fst (scan_lines (ff_to_nl x ++ [10]))) xs))
+    then 3
+    else if (match c_ty c with TPaths => true | _ => false end) && is_nil xs &&
+            elems_eqb (map expand (o_read ob)) [[]]
+    then 4
+    else if existsb is_nil xs && negb (o_rerr ob) && elems_eqb (map expand (o_read ob)) xs && o_typed ob &&
        forallb valid_utf8 xs && each_applies c && elems_eqb (map expand (o_each ob)) (foreach_bound xs)
     then 1 else 0
   end.
